@@ -203,6 +203,75 @@ def _stored_names(stmts):
     return out
 
 
+def _pure_elem(e):
+    return _pure_arg(e)
+
+
+class _Unroller(ast.NodeTransformer):
+    """loops and comprehensions over a tuple display of names (a *args parameter that was substituted): unrolled"""
+
+    def visit_For(self, node):
+        self.generic_visit(node)
+        it = node.iter
+        if not (isinstance(it, (ast.Tuple, ast.List)) and len(it.elts) <= 8 and all(_pure_elem(e) for e in it.elts) and isinstance(node.target, ast.Name)):
+            return node
+        if node.orelse:
+            return node
+        for b in node.body:
+            for n in ast.walk(b):
+                if isinstance(n, (ast.Break, ast.Continue)):
+                    return node
+                if isinstance(n, ast.Name) and n.id == node.target.id and isinstance(n.ctx, (ast.Store, ast.Del)):
+                    return node
+        out = []
+        for e in it.elts:
+            sub = _Subst({}, {node.target.id: e})
+            for b in node.body:
+                out.append(sub.visit(clone(b)))
+        return out or [ast.copy_location(ast.Pass(), node)]
+
+    def visit_ListComp(self, node):
+        self.generic_visit(node)
+        if len(node.generators) == 1:
+            g = node.generators[0]
+            if isinstance(g.iter, (ast.Tuple, ast.List)) and len(g.iter.elts) <= 8 and all(_pure_elem(e) for e in g.iter.elts) \
+                    and isinstance(g.target, ast.Name) and not g.ifs and not g.is_async:
+                elts = [_Subst({}, {g.target.id: e}).visit(clone(node.elt)) for e in g.iter.elts]
+                return ast.copy_location(ast.List(elts=elts, ctx=ast.Load()), node)
+        return node
+
+
+def _simplify(stmts):
+    mod = ast.Module(body=stmts, type_ignores=[])
+    mod = _Unroller().visit(mod)
+    return mod.body
+
+
+def _fold_temp_lists(stmts):
+    """t = [E0, E1]  directly followed by  x = t[k]  /  a, b = t   with t a generated temporary   ->   x = Ek  /  a = E0; b = E1"""
+    out = []
+    i = 0
+    while i < len(stmts):
+        s = stmts[i]
+        nx = stmts[i + 1] if i + 1 < len(stmts) else None
+        if (isinstance(s, ast.Assign) and len(s.targets) == 1 and isinstance(s.targets[0], ast.Name) and '__value' in s.targets[0].id
+                and isinstance(s.value, (ast.List, ast.Tuple)) and isinstance(nx, ast.Assign) and len(nx.targets) == 1):
+            t = s.targets[0].id
+            v = nx.value
+            if isinstance(v, ast.Subscript) and isinstance(v.value, ast.Name) and v.value.id == t and isinstance(v.slice, ast.Constant) \
+                    and isinstance(v.slice.value, int) and -len(s.value.elts) <= v.slice.value < len(s.value.elts):
+                out.append(ast.copy_location(ast.Assign(targets=nx.targets, value=s.value.elts[v.slice.value]), nx))
+                i += 2
+                continue
+            if isinstance(v, ast.Name) and v.id == t and isinstance(nx.targets[0], ast.Tuple):
+                out.extend(_Flattener._assign_back(nx.targets[0], s.value, nx))
+                i += 2
+                continue
+        out.append(s)
+        i += 1
+    return out
+
+
 class _Flattener:
     def __init__(self, scope, keep, module_level=False):
         """scope: a ClassDef (methods called through self/cls/<ClassName>) or a Module (functions called by plain name)"""
@@ -334,7 +403,7 @@ class _Flattener:
             exprs[vararg] = ast.copy_location(ast.Tuple(elts=[clone(e) for e in extra], ctx=ast.Load()), call)
         sub = _Subst(rename, exprs)
         body = [sub.visit(st_) for st_ in body]
-        body = self._returns(body, target, call)
+        body = self._returns(_simplify(body), target, call)
         out = pre + body
         self.expanded.append(callee.name)
         return self.block(out, caller_names | set(rename.values()), stack + (callee.name,), depth + 1)
@@ -345,7 +414,7 @@ class _Flattener:
         (identity positions dropped) when no position reads a name another position writes"""
         if isinstance(value, ast.Name) and isinstance(target, ast.Name) and value.id == target.id:
             return []
-        if isinstance(target, ast.Tuple) and isinstance(value, ast.Tuple) and len(target.elts) == len(value.elts) \
+        if isinstance(target, ast.Tuple) and isinstance(value, (ast.Tuple, ast.List)) and len(target.elts) == len(value.elts) \
                 and all(isinstance(t, ast.Name) for t in target.elts):
             pairs = [(t, v) for t, v in zip(target.elts, value.elts) if not (isinstance(v, ast.Name) and v.id == t.id)]
             written = {t.id for t, _ in pairs}
@@ -405,8 +474,24 @@ class _Flattener:
             i += 1
         return out
 
+    def _hoist_subscript(self, stmts, stack):
+        """x = self.m(...)[k]   ->   m__value = self.m(...);  x = m__value[k]        (k a constant)"""
+        out = []
+        for s in stmts:
+            if isinstance(s, ast.Assign) and len(s.targets) == 1 and isinstance(s.value, ast.Subscript) and isinstance(s.value.slice, ast.Constant) \
+                    and isinstance(s.value.value, ast.Call) and self.callee_of(s.value.value, stack) is not None:
+                self.k += 1
+                tmp = '%s__value%d' % (self.callee_of(s.value.value, stack).name.strip('_'), self.k)
+                out.append(ast.copy_location(ast.Assign(targets=[ast.Name(id=tmp, ctx=ast.Store())], value=s.value.value), s))
+                sub = ast.copy_location(ast.Subscript(value=ast.copy_location(ast.Name(id=tmp, ctx=ast.Load()), s), slice=s.value.slice, ctx=ast.Load()), s)
+                out.append(ast.copy_location(ast.Assign(targets=s.targets, value=sub), s))
+            else:
+                out.append(s)
+        return out
+
     def block(self, stmts, caller_names, stack, depth):
         out = []
+        stmts = self._hoist_subscript(stmts, stack)
         if any(isinstance(s, ast.Assign) and isinstance(s.value, ast.Call) and self.callee_of(s.value, stack) is not None for s in stmts):
             stmts = self._merge_unpack(stmts)
         for s in stmts:
@@ -451,7 +536,7 @@ class _Flattener:
                 for h in s.handlers:
                     h.body = self.block(h.body, caller_names, stack, depth)
             out.append(s)
-        return out
+        return _fold_temp_lists(out)
 
 
 def flatten(scope, fn, keep=(), module_level=False):
@@ -495,3 +580,29 @@ def flat(scope, fn):
     if fn.name not in cache:
         cache[fn.name] = flatten(scope, fn, PRIMS[key], module_level=isinstance(scope, ast.Module))
     return cache[fn.name]
+
+
+def flat_methods(cls):
+    """({name: method with new helpers expanded}, {names of helpers that were expanded into every caller}); cached on the class.
+    An absorbed helper is not a method of its own for the rules: its statements are analysed inside the callers."""
+    cached = cls.__dict__.get('_flat_methods')
+    if cached is not None:
+        return cached
+    meths = {s.name: flat(cls, s) for s in cls.body if isinstance(s, ast.FunctionDef)}
+    expanded = set()
+    for v in meths.values():
+        expanded |= set(getattr(v, '_expanded', ()))
+    absorbed = set()
+    for name in sorted(expanded):
+        still = False
+        for k, v in meths.items():
+            if k in expanded:
+                continue
+            for n in ast.walk(v):
+                if isinstance(n, ast.Attribute) and n.attr == name and isinstance(n.value, ast.Name) and n.value.id in ('self', 'cls', cls.name):
+                    still = True
+        if not still:
+            absorbed.add(name)
+    res = ({k: v for k, v in meths.items() if k not in absorbed}, absorbed)
+    cls.__dict__['_flat_methods'] = res
+    return res
